@@ -42,6 +42,7 @@ func (vx *Vaxis) NewStyledString(s string, defaultStyle Style) *StyledString {
 				continue
 			}
 			params := strings.Split(seq, ";")
+			params = joinLegacyColors(params)
 			for _, param := range params {
 				subs := strings.Split(param, ":")
 				switch subs[0] {
@@ -221,6 +222,30 @@ func (vx *Vaxis) NewStyledString(s string, defaultStyle Style) *StyledString {
 	}
 
 	return ss
+}
+
+// joinLegacyColors rewrites the semicolon forms of the extended colors
+// (38;5;n and 38;2;r;g;b, likewise 48 and 58), which vaxis itself writes when
+// VAXIS_FORCE_LEGACY_SGR is set, into the colon forms NewStyledString reads
+func joinLegacyColors(params []string) []string {
+	out := make([]string, 0, len(params))
+	for i := 0; i < len(params); i++ {
+		p := params[i]
+		if p == "38" || p == "48" || p == "58" {
+			switch {
+			case i+2 < len(params) && params[i+1] == "5":
+				out = append(out, strings.Join(params[i:i+3], ":"))
+				i += 2
+				continue
+			case i+4 < len(params) && params[i+1] == "2":
+				out = append(out, strings.Join(params[i:i+5], ":"))
+				i += 4
+				continue
+			}
+		}
+		out = append(out, p)
+	}
+	return out
 }
 
 // Returns the rendered width of the styled string
